@@ -872,9 +872,27 @@ func (x *Exec) applyContract(ct *Contract, f *ssa.Function, sig *types.Signature
 	pkg := x.e.typesPkg(ct.PkgPath)
 	pre := st.clone()
 	env := &specEnv{x: x, names: names, st: st, old: pre, pkg: pkg}
+	// clauses of a function contract tagged `@in:name` are written against the
+	// calling top-level function's parameters as well (explicit dynamic scope)
+	scoped := names
+	if f != nil && x.topFrame != nil {
+		scoped = map[string]Val{}
+		for k, v := range names {
+			scoped[k] = v
+		}
+		for _, p := range x.top.Params {
+			if _, shadow := scoped[p.Name()]; !shadow {
+				scoped[p.Name()] = x.topFrame.vals[p]
+			}
+		}
+	}
 	for k, cl := range ct.Req {
 		if !x.inScope(cl) {
 			continue
+		}
+		env := env
+		if len(cl.Scope) > 0 && f != nil {
+			env = &specEnv{x: x, names: scoped, st: st, old: pre, pkg: pkg}
 		}
 		if cl.Kind == "typeinv" {
 			x.c.Note("representation invariant assumed, not checked at call sites: %s: %s", ct.Name, cl.Text)
